@@ -1,10 +1,253 @@
-//! World domain: scripts of entity ops executed on the real `specs::World`.
-//! Script line grammar is DESIGN Appendix B; a line is `op` or `op => res` (res ignored on input).
+//! World domain: scripts of entity / storage / lazy ops executed on the real `specs::World`.
+//! Script line grammar: DESIGN Appendix B (a line is `op` or `op => res`; res is ignored on input).
 use crate::rng::Rng;
 use specs::prelude::*;
+use specs::storage::{
+    AccessMut, BTreeStorage, ComponentEvent, DefaultVecStorage, DenseVecStorage, DerefFlaggedStorage,
+    FlaggedStorage, HashMapStorage, NullStorage, StorageEntry, VecStorage,
+};
 use specs::world::EntitiesRes;
+use std::cell::RefCell;
 use std::fmt::Write as _;
 use std::panic::{catch_unwind, AssertUnwindSafe};
+use std::sync::{Arc, Mutex};
+
+// ------------------------------------------------------------------------------------------
+// Components: twelve kinds, every one logs its value when destroyed while logging is on.
+
+thread_local! {
+    static DESTROYED: RefCell<Option<Vec<i64>>> = RefCell::new(None);
+    static PANIC_AT: RefCell<Option<u64>> = RefCell::new(None); // C19: n-th destructor call panics
+}
+
+pub fn log_on() {
+    DESTROYED.with(|d| *d.borrow_mut() = Some(Vec::new()));
+}
+pub fn log_off() -> Vec<i64> {
+    DESTROYED.with(|d| d.borrow_mut().take().unwrap_or_default())
+}
+pub fn log_pause<R>(f: impl FnOnce() -> R) -> R {
+    let saved = DESTROYED.with(|d| d.borrow_mut().take());
+    let saved_p = PANIC_AT.with(|p| p.borrow_mut().take());
+    let r = f();
+    DESTROYED.with(|d| *d.borrow_mut() = saved);
+    PANIC_AT.with(|p| *p.borrow_mut() = saved_p);
+    r
+}
+pub fn set_panic_at(n: Option<u64>) {
+    PANIC_AT.with(|p| *p.borrow_mut() = n);
+}
+fn note_drop(v: i64) {
+    let logging = DESTROYED.with(|d| {
+        let mut d = d.borrow_mut();
+        if let Some(vs) = d.as_mut() {
+            vs.push(v);
+            true
+        } else {
+            false
+        }
+    });
+    if logging {
+        let fire = PANIC_AT.with(|p| {
+            let mut p = p.borrow_mut();
+            match p.as_mut() {
+                Some(n) if *n == 0 => {
+                    *p = None;
+                    true
+                }
+                Some(n) => {
+                    *n -= 1;
+                    false
+                }
+                None => false,
+            }
+        });
+        if fire && !std::thread::panicking() {
+            panic!("verif: injected destructor panic");
+        }
+    }
+}
+
+pub trait Comp: Component + Send + Sync + Default + 'static {
+    const KIND: usize;
+    const TRACKED: u8; // 0 none, 1 flagged, 2 deref-flagged
+    fn new(v: i64) -> Self;
+    fn val(&self) -> i64;
+    fn set(&mut self, v: i64);
+    fn slice_view(_s: &ReadStorage<Self>) -> String {
+        "slice none".into()
+    }
+    fn events(_s: &ReadStorage<Self>, _r: &mut Option<Box<dyn std::any::Any + Send>>) -> String {
+        "ev".into()
+    }
+    fn register_reader(_s: &mut WriteStorage<Self>) -> Option<Box<dyn std::any::Any + Send>> {
+        None
+    }
+    fn set_emit(_s: &mut WriteStorage<Self>, _b: bool) {}
+}
+
+macro_rules! comp {
+    ($name:ident, $kind:expr, $storage:ty, $tracked:expr, $($extra:tt)*) => {
+        #[derive(Default, Debug)]
+        pub struct $name(pub i64);
+        impl Drop for $name {
+            fn drop(&mut self) {
+                note_drop(self.0);
+            }
+        }
+        impl Component for $name {
+            type Storage = $storage;
+        }
+        impl Comp for $name {
+            const KIND: usize = $kind;
+            const TRACKED: u8 = $tracked;
+            fn new(v: i64) -> Self { $name(v) }
+            fn val(&self) -> i64 { self.0 }
+            fn set(&mut self, v: i64) { self.0 = v; }
+            $($extra)*
+        }
+    };
+}
+
+fn mask_ids<T: Comp>(s: &ReadStorage<T>) -> Vec<u32> {
+    use hibitset::BitSetLike;
+    s.mask().iter().collect()
+}
+
+macro_rules! tracked_fns {
+    () => {
+        fn events(s: &ReadStorage<Self>, r: &mut Option<Box<dyn std::any::Any + Send>>) -> String {
+            let mut out = String::from("ev");
+            if let Some(b) = r.as_mut() {
+                let rid = b.downcast_mut::<ReaderId<ComponentEvent>>().unwrap();
+                for ev in s.channel().read(rid) {
+                    match ev {
+                        ComponentEvent::Inserted(i) => write!(out, " I{}", i).unwrap(),
+                        ComponentEvent::Modified(i) => write!(out, " M{}", i).unwrap(),
+                        ComponentEvent::Removed(i) => write!(out, " R{}", i).unwrap(),
+                    }
+                }
+            }
+            out
+        }
+        fn register_reader(s: &mut WriteStorage<Self>) -> Option<Box<dyn std::any::Any + Send>> {
+            Some(Box::new(s.register_reader()))
+        }
+        fn set_emit(s: &mut WriteStorage<Self>, b: bool) {
+            s.set_event_emission(b);
+        }
+    };
+}
+
+comp!(CVec, 0, VecStorage<Self>, 0,
+    fn slice_view(s: &ReadStorage<Self>) -> String {
+        let sl = s.as_slice();
+        let mut out = format!("slice opt {}", sl.len());
+        for i in mask_ids(s) {
+            // SAFETY of the read is exactly what C04 claims: occupied slots are initialised.
+            match sl.get(i as usize) {
+                Some(c) => write!(out, " {}:{}", i, unsafe { c.assume_init_ref() }.0).unwrap(),
+                None => write!(out, " {}:-", i).unwrap(),
+            }
+        }
+        out
+    }
+);
+comp!(CDense, 1, DenseVecStorage<Self>, 0,
+    fn slice_view(s: &ReadStorage<Self>) -> String {
+        let mut v: Vec<i64> = s.as_slice().iter().map(|c| c.0).collect();
+        v.sort();
+        let mut out = String::from("slice dense");
+        for x in v { write!(out, " {}", x).unwrap(); }
+        out
+    }
+);
+comp!(CDvec, 2, DefaultVecStorage<Self>, 0,
+    fn slice_view(s: &ReadStorage<Self>) -> String {
+        let sl = s.as_slice();
+        let ids = mask_ids(s);
+        let mut nd = 0usize;
+        let mut it = ids.iter().peekable();
+        for (i, c) in sl.iter().enumerate() {
+            if it.peek().map(|&&x| x as usize == i).unwrap_or(false) { it.next(); } else if c.0 != 0 { nd += 1; }
+        }
+        let mut out = format!("slice dflt {} {}", sl.len(), nd);
+        for i in ids {
+            match sl.get(i as usize) {
+                Some(c) => write!(out, " {}:{}", i, c.0).unwrap(),
+                None => write!(out, " {}:-", i).unwrap(),
+            }
+        }
+        out
+    }
+);
+comp!(CHash, 3, HashMapStorage<Self>, 0,);
+comp!(CBTree, 4, BTreeStorage<Self>, 0,);
+comp!(CFVec, 6, FlaggedStorage<Self, VecStorage<Self>>, 1, tracked_fns!(););
+comp!(CFDense, 7, FlaggedStorage<Self, DenseVecStorage<Self>>, 1, tracked_fns!(););
+comp!(CFHash, 8, FlaggedStorage<Self, HashMapStorage<Self>>, 1, tracked_fns!(););
+comp!(CDFVec, 9, DerefFlaggedStorage<Self, VecStorage<Self>>, 2, tracked_fns!(););
+comp!(CDFDense, 10, DerefFlaggedStorage<Self, DenseVecStorage<Self>>, 2, tracked_fns!(););
+comp!(CDFBTree, 11, DerefFlaggedStorage<Self, BTreeStorage<Self>>, 2, tracked_fns!(););
+
+/// Zero-sized component in the null storage; its value is always 0.
+#[derive(Default, Debug)]
+pub struct CNull;
+impl Drop for CNull {
+    fn drop(&mut self) {
+        note_drop(0);
+    }
+}
+impl Component for CNull {
+    type Storage = NullStorage<Self>;
+}
+impl Comp for CNull {
+    const KIND: usize = 5;
+    const TRACKED: u8 = 0;
+    fn new(_: i64) -> Self { CNull }
+    fn val(&self) -> i64 { 0 }
+    fn set(&mut self, _: i64) {}
+}
+
+pub const NUM_KINDS: usize = 12;
+
+macro_rules! with_kind {
+    ($k:expr, $T:ident => $body:expr) => {
+        match $k {
+            0 => { type $T = CVec; $body }
+            1 => { type $T = CDense; $body }
+            2 => { type $T = CDvec; $body }
+            3 => { type $T = CHash; $body }
+            4 => { type $T = CBTree; $body }
+            5 => { type $T = CNull; $body }
+            6 => { type $T = CFVec; $body }
+            7 => { type $T = CFDense; $body }
+            8 => { type $T = CFHash; $body }
+            9 => { type $T = CDFVec; $body }
+            10 => { type $T = CDFDense; $body }
+            _ => { type $T = CDFBTree; $body }
+        }
+    };
+}
+
+// ------------------------------------------------------------------------------------------
+// Ops
+
+#[derive(Clone, Debug, PartialEq)]
+pub enum EntryOp {
+    OrInsert { v: i64, derefs: u32, write: Option<i64> },
+    Replace(i64),
+    Remove,
+}
+
+#[derive(Clone, Debug, PartialEq)]
+pub enum RAct {
+    Skip,
+    Get,
+    GetMut { derefs: u32, write: Option<i64> },
+    GetOther(usize),
+    GetOtherMut { h: usize, derefs: u32, write: Option<i64> },
+}
 
 #[derive(Clone, Debug, PartialEq)]
 pub enum Op {
@@ -18,43 +261,131 @@ pub enum Op {
     Alive(usize),
     WAlive(usize),
     EJoin,
+    Reg(usize, u8),
+    CreateW { atomic: bool, dropped: bool, comps: Vec<(usize, i64)> },
+    Get(usize, usize),
+    GetMut { k: usize, h: usize, derefs: u32, write: Option<i64> },
+    Has(usize, usize),
+    Ins(usize, usize, i64),
+    Rem(usize, usize),
+    Entry(usize, usize, EntryOp),
+    MutOrDefault { k: usize, h: usize, derefs: u32, write: Option<i64> },
+    Count(usize),
+    Empty(usize),
+    Mask(usize),
+    Clear(usize),
+    Drain(usize, usize),
+    Slice(usize),
+    Emit(usize, bool),
+    Events(usize),
+    LazyIns(usize, usize, i64),
+    LazyInsAll(usize, Vec<(usize, i64)>),
+    LazyRem(usize, usize),
+    LazyCreate(Vec<(usize, i64)>),
+    LazyExec(Vec<Op>),
+    RJoin { k: usize, mutable: bool, acts: Vec<RAct> },
+    DropWorld,
+}
+
+fn show_comps(out: &mut String, comps: &[(usize, i64)]) {
+    for (k, v) in comps {
+        write!(out, " {}:{}", k, v).unwrap();
+    }
+}
+fn show_dw(out: &mut String, derefs: u32, write: &Option<i64>) {
+    write!(out, " {}", derefs).unwrap();
+    if let Some(w) = write {
+        write!(out, " w={}", w).unwrap();
+    }
 }
 
 pub fn show_op(op: &Op) -> String {
+    let mut s = String::new();
     match op {
-        Op::Create { atomic, dropped } => format!(
-            "create {}{}",
-            if *atomic { "atomic" } else { "now" },
-            if *dropped { "_dropped" } else { "" }
-        ),
-        Op::CreateIter { atomic, n } => {
-            format!("create_iter {} {}", if *atomic { "atomic" } else { "now" }, n)
-        }
-        Op::DelNow(h) => format!("del_now @{}", h),
+        Op::Create { atomic, dropped } => write!(s, "create {}{}", if *atomic { "atomic" } else { "now" }, if *dropped { "_dropped" } else { "" }).unwrap(),
+        Op::CreateIter { atomic, n } => write!(s, "create_iter {} {}", if *atomic { "atomic" } else { "now" }, n).unwrap(),
+        Op::DelNow(h) => write!(s, "del_now @{}", h).unwrap(),
         Op::DelBatch(hs) => {
-            let mut s = String::from("del_batch");
-            for h in hs {
-                write!(s, " @{}", h).unwrap();
-            }
-            s
+            s.push_str("del_batch");
+            for h in hs { write!(s, " @{}", h).unwrap(); }
         }
-        Op::DelAtomic(h) => format!("del_atomic @{}", h),
-        Op::DelAll => "del_all".into(),
-        Op::Maintain => "maintain".into(),
-        Op::Alive(h) => format!("alive @{}", h),
-        Op::WAlive(h) => format!("walive @{}", h),
-        Op::EJoin => "ejoin".into(),
+        Op::DelAtomic(h) => write!(s, "del_atomic @{}", h).unwrap(),
+        Op::DelAll => s.push_str("del_all"),
+        Op::Maintain => s.push_str("maintain"),
+        Op::Alive(h) => write!(s, "alive @{}", h).unwrap(),
+        Op::WAlive(h) => write!(s, "walive @{}", h).unwrap(),
+        Op::EJoin => s.push_str("ejoin"),
+        Op::Reg(k, p) => write!(s, "reg {} {}", k, p).unwrap(),
+        Op::CreateW { atomic, dropped, comps } => {
+            write!(s, "createw {}{}", if *atomic { "atomic" } else { "now" }, if *dropped { "_dropped" } else { "" }).unwrap();
+            show_comps(&mut s, comps);
+        }
+        Op::Get(k, h) => write!(s, "get {} @{}", k, h).unwrap(),
+        Op::GetMut { k, h, derefs, write } => { write!(s, "getmut {} @{}", k, h).unwrap(); show_dw(&mut s, *derefs, write); }
+        Op::Has(k, h) => write!(s, "has {} @{}", k, h).unwrap(),
+        Op::Ins(k, h, v) => write!(s, "ins {} @{} {}", k, h, v).unwrap(),
+        Op::Rem(k, h) => write!(s, "rem {} @{}", k, h).unwrap(),
+        Op::Entry(k, h, EntryOp::OrInsert { v, derefs, write }) => { write!(s, "entry_or {} @{} {}", k, h, v).unwrap(); show_dw(&mut s, *derefs, write); }
+        Op::Entry(k, h, EntryOp::Replace(v)) => write!(s, "entry_rep {} @{} {}", k, h, v).unwrap(),
+        Op::Entry(k, h, EntryOp::Remove) => write!(s, "entry_rem {} @{}", k, h).unwrap(),
+        Op::MutOrDefault { k, h, derefs, write } => { write!(s, "mut_or_default {} @{}", k, h).unwrap(); show_dw(&mut s, *derefs, write); }
+        Op::Count(k) => write!(s, "count {}", k).unwrap(),
+        Op::Empty(k) => write!(s, "empty {}", k).unwrap(),
+        Op::Mask(k) => write!(s, "mask {}", k).unwrap(),
+        Op::Clear(k) => write!(s, "clear {}", k).unwrap(),
+        Op::Drain(k, n) => write!(s, "drain {} {}", k, n).unwrap(),
+        Op::Slice(k) => write!(s, "slice {}", k).unwrap(),
+        Op::Emit(k, b) => write!(s, "emit {} {}", k, if *b { "t" } else { "f" }).unwrap(),
+        Op::Events(k) => write!(s, "events {}", k).unwrap(),
+        Op::LazyIns(k, h, v) => write!(s, "lazy_ins {} @{} {}", k, h, v).unwrap(),
+        Op::LazyInsAll(k, items) => {
+            write!(s, "lazy_ins_all {}", k).unwrap();
+            for (h, v) in items { write!(s, " @{}:{}", h, v).unwrap(); }
+        }
+        Op::LazyRem(k, h) => write!(s, "lazy_rem {} @{}", k, h).unwrap(),
+        Op::LazyCreate(comps) => { s.push_str("lazy_create"); show_comps(&mut s, comps); }
+        Op::LazyExec(script) => {
+            s.push_str("lazy_exec [");
+            for (i, o) in script.iter().enumerate() {
+                if i > 0 { s.push_str(" ;"); }
+                s.push(' ');
+                s.push_str(&show_op(o));
+            }
+            s.push_str(" ]");
+        }
+        Op::RJoin { k, mutable, acts } => {
+            write!(s, "rjoin {} {}", k, if *mutable { "m" } else { "s" }).unwrap();
+            for a in acts {
+                match a {
+                    RAct::Skip => s.push_str(" skip"),
+                    RAct::Get => s.push_str(" get"),
+                    RAct::GetMut { derefs, write } => { write!(s, " mut:{}", derefs).unwrap(); if let Some(w) = write { write!(s, ":{}", w).unwrap(); } }
+                    RAct::GetOther(h) => write!(s, " other:@{}", h).unwrap(),
+                    RAct::GetOtherMut { h, derefs, write } => { write!(s, " othermut:@{}:{}", h, derefs).unwrap(); if let Some(w) = write { write!(s, ":{}", w).unwrap(); } }
+                }
+            }
+        }
+        Op::DropWorld => s.push_str("drop_world"),
     }
+    s
 }
 
 fn slot(s: &str) -> Option<usize> {
     s.strip_prefix('@')?.parse().ok()
 }
+fn comps(ts: &[&str]) -> Option<Vec<(usize, i64)>> {
+    ts.iter().map(|t| { let (k, v) = t.split_once(':')?; Some((k.parse().ok()?, v.parse().ok()?)) }).collect()
+}
+fn dw(ts: &[&str]) -> Option<(u32, Option<i64>)> {
+    match ts {
+        [d] => Some((d.parse().ok()?, None)),
+        [d, w] => Some((d.parse().ok()?, Some(w.strip_prefix("w=")?.parse().ok()?))),
+        _ => None,
+    }
+}
 
-pub fn parse_op(line: &str) -> Option<Op> {
-    let l = line.split(" => ").next().unwrap().trim();
-    let ts: Vec<&str> = l.split_whitespace().collect();
-    Some(match ts.as_slice() {
+pub fn parse_ops(ts: &[&str]) -> Option<Op> {
+    Some(match ts {
         ["create", "now"] => Op::Create { atomic: false, dropped: false },
         ["create", "now_dropped"] => Op::Create { atomic: false, dropped: true },
         ["create", "atomic"] => Op::Create { atomic: true, dropped: false },
@@ -69,195 +400,536 @@ pub fn parse_op(line: &str) -> Option<Op> {
         ["alive", h] => Op::Alive(slot(h)?),
         ["walive", h] => Op::WAlive(slot(h)?),
         ["ejoin"] => Op::EJoin,
+        ["reg", k, p] => Op::Reg(k.parse().ok()?, p.parse().ok()?),
+        ["createw", mode, cs @ ..] => {
+            let (atomic, dropped) = match *mode {
+                "now" => (false, false), "now_dropped" => (false, true),
+                "atomic" => (true, false), "atomic_dropped" => (true, true), _ => return None };
+            Op::CreateW { atomic, dropped, comps: comps(cs)? }
+        }
+        ["get", k, h] => Op::Get(k.parse().ok()?, slot(h)?),
+        ["getmut", k, h, rest @ ..] => { let (derefs, write) = dw(rest)?; Op::GetMut { k: k.parse().ok()?, h: slot(h)?, derefs, write } }
+        ["has", k, h] => Op::Has(k.parse().ok()?, slot(h)?),
+        ["ins", k, h, v] => Op::Ins(k.parse().ok()?, slot(h)?, v.parse().ok()?),
+        ["rem", k, h] => Op::Rem(k.parse().ok()?, slot(h)?),
+        ["entry_or", k, h, v, rest @ ..] => { let (derefs, write) = dw(rest)?; Op::Entry(k.parse().ok()?, slot(h)?, EntryOp::OrInsert { v: v.parse().ok()?, derefs, write }) }
+        ["entry_rep", k, h, v] => Op::Entry(k.parse().ok()?, slot(h)?, EntryOp::Replace(v.parse().ok()?)),
+        ["entry_rem", k, h] => Op::Entry(k.parse().ok()?, slot(h)?, EntryOp::Remove),
+        ["mut_or_default", k, h, rest @ ..] => { let (derefs, write) = dw(rest)?; Op::MutOrDefault { k: k.parse().ok()?, h: slot(h)?, derefs, write } }
+        ["count", k] => Op::Count(k.parse().ok()?),
+        ["empty", k] => Op::Empty(k.parse().ok()?),
+        ["mask", k] => Op::Mask(k.parse().ok()?),
+        ["clear", k] => Op::Clear(k.parse().ok()?),
+        ["drain", k, n] => Op::Drain(k.parse().ok()?, n.parse().ok()?),
+        ["slice", k] => Op::Slice(k.parse().ok()?),
+        ["emit", k, b] => Op::Emit(k.parse().ok()?, *b == "t"),
+        ["events", k] => Op::Events(k.parse().ok()?),
+        ["lazy_ins", k, h, v] => Op::LazyIns(k.parse().ok()?, slot(h)?, v.parse().ok()?),
+        ["lazy_ins_all", k, items @ ..] => Op::LazyInsAll(k.parse().ok()?, items.iter().map(|t| { let (h, v) = t.split_once(':')?; Some((slot(h)?, v.parse().ok()?)) }).collect::<Option<_>>()?),
+        ["lazy_rem", k, h] => Op::LazyRem(k.parse().ok()?, slot(h)?),
+        ["lazy_create", cs @ ..] => Op::LazyCreate(comps(cs)?),
+        ["lazy_exec", "[", inner @ .., "]"] => {
+            // split on ';' at bracket depth 0
+            let mut script = Vec::new();
+            let mut depth = 0;
+            let mut cur: Vec<&str> = Vec::new();
+            for t in inner {
+                match *t {
+                    "[" => { depth += 1; cur.push(t); }
+                    "]" => { depth -= 1; cur.push(t); }
+                    ";" if depth == 0 => { if !cur.is_empty() { script.push(parse_ops(&cur)?); cur.clear(); } }
+                    _ => cur.push(t),
+                }
+            }
+            if !cur.is_empty() { script.push(parse_ops(&cur)?); }
+            Op::LazyExec(script)
+        }
+        ["rjoin", k, m, acts @ ..] => {
+            let mut v = Vec::new();
+            for a in acts {
+                let ps: Vec<&str> = a.split(':').collect();
+                v.push(match ps.as_slice() {
+                    ["skip"] => RAct::Skip,
+                    ["get"] => RAct::Get,
+                    ["mut", d] => RAct::GetMut { derefs: d.parse().ok()?, write: None },
+                    ["mut", d, w] => RAct::GetMut { derefs: d.parse().ok()?, write: Some(w.parse().ok()?) },
+                    ["other", h] => RAct::GetOther(slot(h)?),
+                    ["othermut", h, d] => RAct::GetOtherMut { h: slot(h)?, derefs: d.parse().ok()?, write: None },
+                    ["othermut", h, d, w] => RAct::GetOtherMut { h: slot(h)?, derefs: d.parse().ok()?, write: Some(w.parse().ok()?) },
+                    _ => return None,
+                });
+            }
+            Op::RJoin { k: k.parse().ok()?, mutable: *m == "m", acts: v }
+        }
+        ["drop_world"] => Op::DropWorld,
         _ => return None,
     })
+}
+
+pub fn parse_op(line: &str) -> Option<Op> {
+    let l = line.split(" => ").next().unwrap().trim();
+    let l = l.split(" ! ").next().unwrap();
+    let ts: Vec<&str> = l.split_whitespace().collect();
+    parse_ops(&ts)
 }
 
 pub fn show_entity(e: Entity) -> String {
     format!("{}:{}", e.id(), e.gen().id())
 }
 
-pub struct Exec {
-    pub world: World,
+// ------------------------------------------------------------------------------------------
+// Executor
+
+#[derive(Default)]
+pub struct Ctx {
     pub log: Vec<Entity>,
+    pub sub: Vec<String>,        // transcript lines of ops run inside lazily executed scripts
+    pub ran: Vec<u64>,           // tags of lazily executed scripts, in execution order
+    pub next_tag: u64,
+    pub readers: Vec<Option<Box<dyn std::any::Any + Send>>>,
+    pub registered: [bool; NUM_KINDS],
+}
+
+pub type Shared = Arc<Mutex<Ctx>>;
+
+pub struct Exec {
+    pub world: Option<World>,
+    pub ctx: Shared,
+}
+
+fn resolve(ctx: &Shared, k: usize) -> Option<Entity> {
+    let c = ctx.lock().unwrap();
+    if c.log.is_empty() { None } else { Some(c.log[k % c.log.len()]) }
+}
+
+fn opt_val<T: Comp>(o: Option<&T>) -> String {
+    match o { Some(c) => format!("some {}", c.val()), None => "none".into() }
+}
+
+fn apply_access<T: Comp, A: AccessMut<Target = T>>(mut acc: A, derefs: u32, write: Option<i64>) {
+    for i in 0..derefs {
+        let r = acc.access_mut();
+        if i + 1 == derefs {
+            if let Some(w) = write { r.set(w); }
+        }
+    }
+}
+
+fn build_with<'a, B: Builder>(mut b: B, comps: &[(usize, i64)]) -> B {
+    for &(k, v) in comps {
+        b = with_kind!(k, T => b.with(T::new(v)));
+    }
+    b
+}
+
+pub fn exec_op(world: &mut World, ctx: &Shared, op: &Op) -> String {
+    let r = catch_unwind(AssertUnwindSafe(|| exec_inner(world, ctx, op)));
+    match r { Ok(s) => s, Err(_) => "panic".into() }
+}
+
+fn is_reg(ctx: &Shared, k: usize) -> bool {
+    k < NUM_KINDS && ctx.lock().unwrap().registered[k]
+}
+
+fn exec_inner(world: &mut World, ctx: &Shared, op: &Op) -> String {
+    match op {
+        Op::Create { atomic: false, dropped } => {
+            let e = if *dropped { let b = world.create_entity(); let e = b.entity; drop(b); e } else { world.create_entity().build() };
+            ctx.lock().unwrap().log.push(e);
+            format!("e {}", show_entity(e))
+        }
+        Op::Create { atomic: true, dropped } => {
+            let e = { let ents = world.entities(); if *dropped { let b = ents.build_entity(); let e = b.entity; drop(b); e } else { ents.create() } };
+            ctx.lock().unwrap().log.push(e);
+            format!("e {}", show_entity(e))
+        }
+        Op::CreateIter { atomic, n } => {
+            let es: Vec<Entity> = if *atomic { let ents = world.entities(); let v = ents.create_iter().take(*n).collect(); v } else { world.create_iter().take(*n).collect() };
+            let mut s = String::from("es");
+            for e in &es { write!(s, " {}", show_entity(*e)).unwrap(); }
+            ctx.lock().unwrap().log.extend(es);
+            s
+        }
+        Op::DelNow(h) => match resolve(ctx, *h) {
+            None => "skip".into(),
+            Some(e) => match world.delete_entity(e) { Ok(()) => "ok".into(), Err(_) => "err".into() },
+        },
+        Op::DelBatch(hs) => {
+            if ctx.lock().unwrap().log.is_empty() { return "skip".into(); }
+            let es: Vec<Entity> = hs.iter().map(|h| resolve(ctx, *h).unwrap()).collect();
+            match world.delete_entities(&es) { Ok(()) => "ok".into(), Err((_, pos)) => format!("err {}", pos) }
+        }
+        Op::DelAtomic(h) => match resolve(ctx, *h) {
+            None => "skip".into(),
+            Some(e) => match world.entities().delete(e) { Ok(()) => "ok".into(), Err(_) => "err".into() },
+        },
+        Op::DelAll => { world.delete_all(); "ok".into() }
+        Op::Maintain => {
+            let before = ctx.lock().unwrap().ran.len();
+            world.maintain();
+            let c = ctx.lock().unwrap();
+            let mut s = String::from("acts");
+            for t in &c.ran[before..] { write!(s, " {}", t).unwrap(); }
+            s
+        }
+        Op::Alive(h) => match resolve(ctx, *h) {
+            None => "skip".into(),
+            Some(e) => { let ents: specs::Read<EntitiesRes> = world.entities(); if ents.is_alive(e) { "t".into() } else { "f".into() } }
+        },
+        Op::WAlive(h) => match resolve(ctx, *h) {
+            None => "skip".into(),
+            Some(e) => if world.is_alive(e) { "t".into() } else { "f".into() },
+        },
+        Op::EJoin => {
+            let ents = world.entities();
+            let mut s = String::from("es");
+            for e in (&*ents).join() { write!(s, " {}", show_entity(e)).unwrap(); }
+            s
+        }
+        Op::Reg(k, path) => {
+            if *k >= NUM_KINDS { return "ok".into(); }
+            with_kind!(*k, T => {
+                match path {
+                    0 => world.register::<T>(),
+                    1 => world.register_with_storage::<_, T>(Default::default),
+                    _ => { if *k % 2 == 0 { <ReadStorage<T> as SystemData>::setup(world) } else { <WriteStorage<T> as SystemData>::setup(world) } }
+                }
+                let mut c = ctx.lock().unwrap();
+                if !c.registered[*k] {
+                    c.registered[*k] = true;
+                    let mut st = world.write_storage::<T>();
+                    c.readers[*k] = T::register_reader(&mut st);
+                }
+            });
+            "ok".into()
+        }
+        Op::CreateW { atomic, dropped, comps } => {
+            for (k, _) in comps { if !is_reg(ctx, *k) { return "nostore".into(); } }
+            let e = if !*atomic {
+                let b = build_with(world.create_entity(), comps);
+                if *dropped { let e = b.entity; drop(b); e } else { b.build() }
+            } else {
+                let ents = world.entities();
+                let mut b = ents.build_entity();
+                for &(k, v) in comps {
+                    b = with_kind!(k, T => { let mut st = world.write_storage::<T>(); b.with(T::new(v), &mut st) });
+                }
+                if *dropped { let e = b.entity; drop(b); e } else { b.build() }
+            };
+            ctx.lock().unwrap().log.push(e);
+            format!("e {}", show_entity(e))
+        }
+        Op::Get(k, h) => {
+            if !is_reg(ctx, *k) { return "nostore".into(); }
+            let e = match resolve(ctx, *h) { Some(e) => e, None => return "skip".into() };
+            with_kind!(*k, T => { let st = world.read_storage::<T>(); opt_val(st.get(e)) })
+        }
+        Op::GetMut { k, h, derefs, write } => {
+            if !is_reg(ctx, *k) { return "nostore".into(); }
+            let e = match resolve(ctx, *h) { Some(e) => e, None => return "skip".into() };
+            with_kind!(*k, T => {
+                let mut st = world.write_storage::<T>();
+                let old = st.get(e).map(|c| c.val());
+                match st.get_mut(e) {
+                    Some(acc) => { apply_access::<T, _>(acc, *derefs, *write); format!("some {}", old.unwrap_or(-999)) }
+                    None => "none".into(),
+                }
+            })
+        }
+        Op::Has(k, h) => {
+            if !is_reg(ctx, *k) { return "nostore".into(); }
+            let e = match resolve(ctx, *h) { Some(e) => e, None => return "skip".into() };
+            with_kind!(*k, T => { let st = world.read_storage::<T>(); if st.contains(e) { "t".into() } else { "f".into() } })
+        }
+        Op::Ins(k, h, v) => {
+            if !is_reg(ctx, *k) { return "nostore".into(); }
+            let e = match resolve(ctx, *h) { Some(e) => e, None => return "skip".into() };
+            with_kind!(*k, T => {
+                let mut st = world.write_storage::<T>();
+                match st.insert(e, T::new(*v)) {
+                    Ok(None) => "ins".into(),
+                    Ok(Some(old)) => { let s = format!("rep {}", old.val()); log_pause(|| drop(old)); s }
+                    Err(_) => "err".into(),
+                }
+            })
+        }
+        Op::Rem(k, h) => {
+            if !is_reg(ctx, *k) { return "nostore".into(); }
+            let e = match resolve(ctx, *h) { Some(e) => e, None => return "skip".into() };
+            with_kind!(*k, T => {
+                let mut st = world.write_storage::<T>();
+                match st.remove(e) {
+                    Some(old) => { let s = format!("some {}", old.val()); log_pause(|| drop(old)); s }
+                    None => "none".into(),
+                }
+            })
+        }
+        Op::Entry(k, h, eop) => {
+            if !is_reg(ctx, *k) { return "nostore".into(); }
+            let e = match resolve(ctx, *h) { Some(e) => e, None => return "skip".into() };
+            with_kind!(*k, T => {
+                let mut st = world.write_storage::<T>();
+                let old = st.get(e).map(|c| c.val());
+                let r = match st.entry(e) {
+                    Err(_) => "err".to_string(),
+                    Ok(entry) => match eop {
+                        EntryOp::OrInsert { v, derefs, write } => {
+                            let occ = matches!(entry, StorageEntry::Occupied(_));
+                            let acc = entry.or_insert(T::new(*v));
+                            apply_access::<T, _>(acc, *derefs, *write);
+                            if occ { format!("occ {}", old.unwrap_or(-999)) } else { "vac".into() }
+                        }
+                        EntryOp::Replace(v) => match entry.replace(T::new(*v)) {
+                            Some(o) => { let s = format!("occ {}", o.val()); log_pause(|| drop(o)); s }
+                            None => "vac".into(),
+                        },
+                        EntryOp::Remove => match entry {
+                            StorageEntry::Occupied(o) => { let c = o.remove(); let s = format!("occ {}", c.val()); log_pause(|| drop(c)); s }
+                            StorageEntry::Vacant(_) => "vac".into(),
+                        },
+                    },
+                };
+                r
+            })
+        }
+        Op::MutOrDefault { k, h, derefs, write } => {
+            if !is_reg(ctx, *k) { return "nostore".into(); }
+            let e = match resolve(ctx, *h) { Some(e) => e, None => return "skip".into() };
+            with_kind!(*k, T => {
+                use specs::storage::GenericWriteStorage;
+                let mut st = world.write_storage::<T>();
+                let old = st.get(e).map(|c| c.val());
+                match GenericWriteStorage::get_mut_or_default(&mut st, e) {
+                    Some(acc) => { apply_access::<T, _>(acc, *derefs, *write); format!("some {}", old.unwrap_or(0)) }
+                    None => "none".into(),
+                }
+            })
+        }
+        Op::Count(k) => { if !is_reg(ctx, *k) { return "nostore".into(); } with_kind!(*k, T => format!("n {}", world.read_storage::<T>().count())) }
+        Op::Empty(k) => { if !is_reg(ctx, *k) { return "nostore".into(); } with_kind!(*k, T => if world.read_storage::<T>().is_empty() { "t".into() } else { "f".into() }) }
+        Op::Mask(k) => {
+            if !is_reg(ctx, *k) { return "nostore".into(); }
+            with_kind!(*k, T => { let st = world.read_storage::<T>(); let mut s = String::from("ids"); for i in mask_ids(&st) { write!(s, " {}", i).unwrap(); } s })
+        }
+        Op::Clear(k) => { if !is_reg(ctx, *k) { return "nostore".into(); } with_kind!(*k, T => { world.write_storage::<T>().clear(); "ok".into() }) }
+        Op::Drain(k, n) => {
+            if !is_reg(ctx, *k) { return "nostore".into(); }
+            with_kind!(*k, T => {
+                let ents = world.entities();
+                let mut st = world.write_storage::<T>();
+                let mut s = String::from("pairs");
+                let mut taken = Vec::new();
+                for (e, c) in (&*ents, st.drain()).join().take(*n) { write!(s, " {}:{}", e.id(), c.val()).unwrap(); taken.push(c); }
+                log_pause(|| drop(taken));
+                s
+            })
+        }
+        Op::Slice(k) => { if !is_reg(ctx, *k) { return "nostore".into(); } with_kind!(*k, T => { let st = world.read_storage::<T>(); T::slice_view(&st) }) }
+        Op::Emit(k, b) => { if !is_reg(ctx, *k) { return "nostore".into(); } with_kind!(*k, T => { let mut st = world.write_storage::<T>(); T::set_emit(&mut st, *b); "ok".into() }) }
+        Op::Events(k) => {
+            if !is_reg(ctx, *k) { return "nostore".into(); }
+            with_kind!(*k, T => { let st = world.read_storage::<T>(); let mut c = ctx.lock().unwrap(); T::events(&st, &mut c.readers[*k]) })
+        }
+        Op::LazyIns(k, h, v) => {
+            if !is_reg(ctx, *k) { return "nostore".into(); }
+            let e = match resolve(ctx, *h) { Some(e) => e, None => return "skip".into() };
+            with_kind!(*k, T => world.read_resource::<LazyUpdate>().insert(e, T::new(*v)));
+            let mut c = ctx.lock().unwrap(); c.next_tag += 1; format!("q {}", c.next_tag - 1)
+        }
+        Op::LazyInsAll(k, items) => {
+            if !is_reg(ctx, *k) { return "nostore".into(); }
+            if ctx.lock().unwrap().log.is_empty() { return "skip".into(); }
+            with_kind!(*k, T => {
+                let v: Vec<(Entity, T)> = items.iter().map(|(h, v)| (resolve(ctx, *h).unwrap(), T::new(*v))).collect();
+                world.read_resource::<LazyUpdate>().insert_all(v);
+            });
+            let mut c = ctx.lock().unwrap(); c.next_tag += 1; format!("q {}", c.next_tag - 1)
+        }
+        Op::LazyRem(k, h) => {
+            if !is_reg(ctx, *k) { return "nostore".into(); }
+            let e = match resolve(ctx, *h) { Some(e) => e, None => return "skip".into() };
+            with_kind!(*k, T => world.read_resource::<LazyUpdate>().remove::<T>(e));
+            let mut c = ctx.lock().unwrap(); c.next_tag += 1; format!("q {}", c.next_tag - 1)
+        }
+        Op::LazyCreate(comps) => {
+            for (k, _) in comps { if !is_reg(ctx, *k) { return "nostore".into(); } }
+            let e = {
+                let ents = world.entities();
+                let lazy = world.read_resource::<LazyUpdate>();
+                let b = build_with(lazy.create_entity(&ents), comps);
+                b.build()
+            };
+            let mut c = ctx.lock().unwrap();
+            c.next_tag += comps.len() as u64;
+            c.log.push(e);
+            format!("e {}", show_entity(e))
+        }
+        Op::LazyExec(script) => {
+            let tag = { let mut c = ctx.lock().unwrap(); c.next_tag += 1; c.next_tag - 1 };
+            let script = script.clone();
+            let ctx2 = ctx.clone();
+            world.read_resource::<LazyUpdate>().exec_mut(move |w: &mut World| {
+                ctx2.lock().unwrap().ran.push(tag);
+                for o in &script {
+                    let r = exec_op(w, &ctx2, o);
+                    let line = format!("in {} {} => {}", tag, show_op(o), r);
+                    ctx2.lock().unwrap().sub.push(line);
+                }
+            });
+            format!("q {}", tag)
+        }
+        Op::RJoin { k, mutable, acts } => {
+            if !is_reg(ctx, *k) { return "nostore".into(); }
+            with_kind!(*k, T => {
+                let mut out = String::from("items");
+                let mut acts_it = acts.iter();
+                if *mutable {
+                    let mut st = world.write_storage::<T>();
+                    let ids = mask_ids_w(&st);
+                    let mut restricted = st.restrict_mut();
+                    let mut i = 0usize;
+                    (&mut restricted).lend_join().for_each(|mut item| {
+                        let id = ids[i]; i += 1;
+                        let act = acts_it.next().cloned().unwrap_or(RAct::Skip);
+                        match act {
+                            RAct::Skip => write!(out, " {}:-", id).unwrap(),
+                            RAct::Get => write!(out, " {}:v={}", id, item.get().val()).unwrap(),
+                            RAct::GetMut { derefs, write } => { let old = item.get().val(); apply_access::<T, _>(item.get_mut(), derefs, write); write!(out, " {}:v={}", id, old).unwrap(); }
+                            RAct::GetOther(h) => match resolve(ctx, h) {
+                                None => write!(out, " {}:-", id).unwrap(),
+                                Some(e) => match item.get_other(e) { Some(c) => write!(out, " {}:some={}", id, c.val()).unwrap(), None => write!(out, " {}:none", id).unwrap() },
+                            },
+                            RAct::GetOtherMut { h, derefs, write } => match resolve(ctx, h) {
+                                None => write!(out, " {}:-", id).unwrap(),
+                                Some(e) => {
+                                    let old = item.get_other(e).map(|c| c.val());
+                                    match item.get_other_mut(e) { Some(acc) => { apply_access::<T, _>(acc, derefs, write); write!(out, " {}:some={}", id, old.unwrap_or(-999)).unwrap() } None => write!(out, " {}:none", id).unwrap() }
+                                }
+                            },
+                        }
+                    });
+                } else {
+                    let st = world.read_storage::<T>();
+                    let ids = mask_ids(&st);
+                    let restricted = st.restrict();
+                    for (i, item) in (&restricted).join().enumerate() {
+                        let id = ids[i];
+                        let act = acts_it.next().cloned().unwrap_or(RAct::Skip);
+                        match act {
+                            RAct::Get => write!(out, " {}:v={}", id, item.get().val()).unwrap(),
+                            RAct::GetOther(h) => match resolve(ctx, h) {
+                                None => write!(out, " {}:-", id).unwrap(),
+                                Some(e) => match item.get_other(e) { Some(c) => write!(out, " {}:some={}", id, c.val()).unwrap(), None => write!(out, " {}:none", id).unwrap() },
+                            },
+                            _ => write!(out, " {}:-", id).unwrap(),
+                        }
+                    }
+                }
+                out
+            })
+        }
+        Op::DropWorld => "dropped".into(), // handled by Exec::exec (needs ownership)
+    }
+}
+
+fn mask_ids_w<T: Comp>(s: &WriteStorage<T>) -> Vec<u32> {
+    use hibitset::BitSetLike;
+    s.mask().iter().collect()
 }
 
 impl Exec {
     pub fn new() -> Self {
-        Exec { world: World::new(), log: Vec::new() }
+        let mut c = Ctx::default();
+        for _ in 0..NUM_KINDS { c.readers.push(None); }
+        Exec { world: Some(World::new()), ctx: Arc::new(Mutex::new(c)) }
     }
 
-    fn resolve(&self, k: usize) -> Option<Entity> {
-        if self.log.is_empty() { None } else { Some(self.log[k % self.log.len()]) }
-    }
-
-    /// Executes one op on the real world; returns the result tokens.
-    pub fn exec(&mut self, op: &Op) -> String {
-        let r = catch_unwind(AssertUnwindSafe(|| self.exec_inner(op)));
-        match r {
-            Ok(s) => s,
-            Err(_) => "panic".into(),
-        }
-    }
-
-    fn exec_inner(&mut self, op: &Op) -> String {
-        match op {
-            Op::Create { atomic: false, dropped } => {
-                let e = if *dropped {
-                    let b = self.world.create_entity();
-                    let e = b.entity;
-                    drop(b);
-                    e
-                } else {
-                    self.world.create_entity().build()
-                };
-                self.log.push(e);
-                format!("e {}", show_entity(e))
-            }
-            Op::Create { atomic: true, dropped } => {
-                let e = {
-                    let ents = self.world.entities();
-                    if *dropped {
-                        let b = ents.build_entity();
-                        let e = b.entity;
-                        drop(b);
-                        e
-                    } else {
-                        ents.create()
-                    }
-                };
-                self.log.push(e);
-                format!("e {}", show_entity(e))
-            }
-            Op::CreateIter { atomic, n } => {
-                let es: Vec<Entity> = if *atomic {
-                    let ents = self.world.entities();
-                    let v = ents.create_iter().take(*n).collect();
-                    v
-                } else {
-                    self.world.create_iter().take(*n).collect()
-                };
-                let mut s = String::from("es");
-                for e in &es {
-                    write!(s, " {}", show_entity(*e)).unwrap();
+    /// Executes one top-level op; returns result tokens, the nested transcript lines it produced
+    /// and the values destroyed during it (sorted).
+    pub fn exec(&mut self, op: &Op) -> (String, Vec<String>, Vec<i64>) {
+        log_on();
+        let res = if let Op::DropWorld = op {
+            match self.world.take() {
+                Some(w) => {
+                    let r = catch_unwind(AssertUnwindSafe(|| drop(w)));
+                    self.ctx.lock().unwrap().readers.iter_mut().for_each(|r| *r = None);
+                    if r.is_ok() { "dropped".to_string() } else { "panic".to_string() }
                 }
-                self.log.extend(es);
-                s
+                None => "skip".to_string(),
             }
-            Op::DelNow(h) => match self.resolve(*h) {
-                None => "skip".into(),
-                Some(e) => match self.world.delete_entity(e) {
-                    Ok(()) => "ok".into(),
-                    Err(_) => "err".into(),
-                },
-            },
-            Op::DelBatch(hs) => {
-                if self.log.is_empty() {
-                    return "skip".into();
-                }
-                let es: Vec<Entity> = hs.iter().map(|h| self.resolve(*h).unwrap()).collect();
-                match self.world.delete_entities(&es) {
-                    Ok(()) => "ok".into(),
-                    Err((_, pos)) => format!("err {}", pos),
-                }
+        } else {
+            match self.world.as_mut() {
+                Some(w) => exec_op(w, &self.ctx, op),
+                None => "skip".to_string(),
             }
-            Op::DelAtomic(h) => match self.resolve(*h) {
-                None => "skip".into(),
-                Some(e) => match self.world.entities().delete(e) {
-                    Ok(()) => "ok".into(),
-                    Err(_) => "err".into(),
-                },
-            },
-            Op::DelAll => {
-                self.world.delete_all();
-                "ok".into()
-            }
-            Op::Maintain => {
-                self.world.maintain();
-                "ok".into()
-            }
-            Op::Alive(h) => match self.resolve(*h) {
-                None => "skip".into(),
-                Some(e) => {
-                    let ents: specs::Read<EntitiesRes> = self.world.entities();
-                    if ents.is_alive(e) { "t".into() } else { "f".into() }
-                }
-            },
-            Op::WAlive(h) => match self.resolve(*h) {
-                None => "skip".into(),
-                Some(e) => if self.world.is_alive(e) { "t".into() } else { "f".into() },
-            },
-            Op::EJoin => {
-                let ents = self.world.entities();
-                let mut s = String::from("es");
-                for e in (&*ents).join() {
-                    write!(s, " {}", show_entity(e)).unwrap();
-                }
-                s
-            }
-        }
+        };
+        let mut d = log_off();
+        d.sort();
+        let sub = std::mem::take(&mut self.ctx.lock().unwrap().sub);
+        (res, sub, d)
     }
 }
 
 pub fn is_mutating(op: &Op) -> bool {
-    !matches!(op, Op::Alive(_) | Op::WAlive(_) | Op::EJoin)
+    !matches!(op, Op::Alive(_) | Op::WAlive(_) | Op::EJoin | Op::Get(..) | Op::Has(..) | Op::Count(_) | Op::Empty(_) | Op::Mask(_) | Op::Slice(_) | Op::Events(_))
 }
 
-/// Runs a script; with `probe`, after every mutating op queries every logged handle (all if the
-/// log is small, else `probe_n` of them chosen by `rng`) and the entities join.
-pub fn run_script(ops: &[Op], probe: bool, rng: &mut Rng, out: &mut String) {
+#[derive(Clone, Copy)]
+pub struct RunCfg {
+    pub probe_entities: bool, // alive @k for logged handles + ejoin after each mutating op
+    pub probe_stores: bool,   // mask/events of every registered kind after each mutating op
+    pub ledger: bool,         // print ` ! d v v …` (values destroyed during the op)
+}
+
+fn emit_line(out: &mut String, op: &Op, r: &(String, Vec<String>, Vec<i64>), ledger: bool) {
+    write!(out, "{} => {}", show_op(op), r.0).unwrap();
+    if ledger {
+        out.push_str(" ! d");
+        for v in &r.2 { write!(out, " {}", v).unwrap(); }
+    }
+    out.push('\n');
+    for l in &r.1 { out.push_str(l); out.push('\n'); }
+}
+
+pub fn run_script(ops: &[Op], cfg: RunCfg, rng: &mut Rng, out: &mut String) {
     let mut ex = Exec::new();
     for op in ops {
         let r = ex.exec(op);
-        writeln!(out, "{} => {}", show_op(op), r).unwrap();
-        if probe && is_mutating(op) {
-            let n = ex.log.len();
-            let ks: Vec<usize> = if n <= 12 {
-                (0..n).collect()
-            } else {
-                let mut v: Vec<usize> = (0..6).map(|_| rng.below(n as u64) as usize).collect();
-                v.extend((n - 4)..n);
-                v
-            };
-            for k in ks {
-                let q = Op::Alive(k);
-                let r = ex.exec(&q);
-                writeln!(out, "{} => {}", show_op(&q), r).unwrap();
+        emit_line(out, op, &r, cfg.ledger);
+        if is_mutating(op) && ex.world.is_some() {
+            if cfg.probe_entities {
+                let n = ex.ctx.lock().unwrap().log.len();
+                let ks: Vec<usize> = if n <= 12 { (0..n).collect() } else {
+                    let mut v: Vec<usize> = (0..6).map(|_| rng.below(n as u64) as usize).collect();
+                    v.extend((n - 4)..n);
+                    v
+                };
+                for k in ks { let q = Op::Alive(k); let r = ex.exec(&q); emit_line(out, &q, &r, false); }
+                let q = Op::EJoin; let r = ex.exec(&q); emit_line(out, &q, &r, false);
             }
-            let q = Op::EJoin;
-            let r = ex.exec(&q);
-            writeln!(out, "{} => {}", show_op(&q), r).unwrap();
+            if cfg.probe_stores {
+                let regs: Vec<usize> = { let c = ex.ctx.lock().unwrap(); (0..NUM_KINDS).filter(|k| c.registered[*k]).collect() };
+                for k in regs {
+                    let q = Op::Mask(k); let r = ex.exec(&q); emit_line(out, &q, &r, false);
+                    let tracked = k >= 6;
+                    if tracked { let q = Op::Events(k); let r = ex.exec(&q); emit_line(out, &q, &r, false); }
+                }
+            }
         }
     }
 }
 
+// ------------------------------------------------------------------------------------------
+// Generators
+
 /// Random entity-op history; weights tilted toward create → delete → reuse cycles.
 pub fn gen_script(rng: &mut Rng, len: usize) -> Vec<Op> {
     let mut ops = Vec::with_capacity(len);
-    let mut nlog: usize = 0; // number of handles the script will have produced so far
-    // per-script personality
+    let mut nlog: usize = 0;
     let w_maint = *rng.pick(&[2u32, 6, 12]);
     let w_batch = *rng.pick(&[2u32, 6]);
     for _ in 0..len {
-        let ws = [
-            10, // create now
-            2,  // create now dropped
-            8,  // create atomic
-            2,  // create atomic dropped
-            2,  // create_iter now
-            2,  // create_iter atomic
-            10, // del_now
-            w_batch, // del_batch
-            8,  // del_atomic
-            1,  // del_all
-            w_maint, // maintain
-            2,  // walive
-        ];
-        let pick_slot = |rng: &mut Rng, nlog: usize| -> usize {
-            if nlog == 0 { 0 }
-            else if rng.chance(1, 2) { nlog - 1 - rng.below(nlog.min(4) as u64) as usize }
-            else { rng.below(nlog as u64) as usize }
-        };
+        let ws = [10, 2, 8, 2, 2, 2, 10, w_batch, 8, 1, w_maint, 2];
         let op = match rng.weighted(&ws) {
             0 => { nlog += 1; Op::Create { atomic: false, dropped: false } }
             1 => { nlog += 1; Op::Create { atomic: false, dropped: true } }
@@ -269,7 +941,7 @@ pub fn gen_script(rng: &mut Rng, len: usize) -> Vec<Op> {
             7 => {
                 let n = rng.range(0, 5) as usize;
                 let mut hs: Vec<usize> = (0..n).map(|_| pick_slot(rng, nlog)).collect();
-                if n >= 2 && rng.chance(1, 3) { hs[n - 1] = hs[0]; } // repeated handle
+                if n >= 2 && rng.chance(1, 3) { hs[n - 1] = hs[0]; }
                 Op::DelBatch(hs)
             }
             8 => Op::DelAtomic(pick_slot(rng, nlog)),
@@ -280,6 +952,171 @@ pub fn gen_script(rng: &mut Rng, len: usize) -> Vec<Op> {
         ops.push(op);
     }
     ops
+}
+
+fn pick_slot(rng: &mut Rng, nlog: usize) -> usize {
+    if nlog == 0 { 0 }
+    else if rng.chance(1, 2) { nlog - 1 - rng.below(nlog.min(4) as u64) as usize }
+    else { rng.below(nlog as u64) as usize }
+}
+
+/// Which kinds a storage history uses.
+#[derive(Clone)]
+pub struct StoreProfile {
+    pub kinds: Vec<usize>,
+    pub lazy: bool,
+    pub rjoin: bool,
+    pub emit_toggle: bool,
+    pub clear: bool,
+    pub far_apart: bool,
+    pub drop_world: bool,
+}
+
+fn gen_comps(rng: &mut Rng, kinds: &[usize], val: &mut i64) -> Vec<(usize, i64)> {
+    let mut cs = Vec::new();
+    for &k in kinds {
+        if rng.chance(1, 2) { *val += 1; cs.push((k, if k == 5 { 0 } else { *val })); }
+    }
+    cs
+}
+
+fn gen_dw(rng: &mut Rng, val: &mut i64, null: bool) -> (u32, Option<i64>) {
+    let derefs = rng.below(3) as u32;
+    let write = if derefs >= 1 && rng.chance(2, 3) { *val += 1; Some(if null { 0 } else { *val }) } else { None };
+    (derefs, write)
+}
+
+fn gen_simple_store_op(rng: &mut Rng, p: &StoreProfile, nlog: &mut usize, val: &mut i64, depth: u32) -> Op {
+    let k = *rng.pick(&p.kinds);
+    let null = k == 5;
+    let mut nv = |val: &mut i64| { *val += 1; if null { 0 } else { *val } };
+    let h = pick_slot(rng, *nlog);
+    let ws: [u32; 31] = [
+        8, 6, 3, 10, 6, 4, 6, 3, 3, 3, // createw now, createw atomic, has, ins, rem, get, getmut, entry_or, entry_rep, entry_rem
+        3, 1, 1, 1, if p.clear { 1 } else { 0 }, 2, 2, // mut_or_default, count, empty, mask, clear, drain, slice
+        if p.emit_toggle { 1 } else { 0 }, 2, // emit, events
+        6, 4, 2, 4, // del_now, del_atomic, del_batch, maintain
+        if p.lazy { 3 } else { 0 }, if p.lazy { 1 } else { 0 }, if p.lazy { 2 } else { 0 }, if p.lazy { 2 } else { 0 }, if p.lazy && depth < 2 { 2 } else { 0 }, // lazy_ins, lazy_ins_all, lazy_rem, lazy_create, lazy_exec
+        if p.rjoin { 3 } else { 0 }, 1, 1, // rjoin, del_all, create_iter
+    ];
+    match rng.weighted(&ws) {
+        0 => { *nlog += 1; Op::CreateW { atomic: false, dropped: rng.chance(1, 8), comps: gen_comps(rng, &p.kinds, val) } }
+        1 => { *nlog += 1; Op::CreateW { atomic: true, dropped: rng.chance(1, 8), comps: gen_comps(rng, &p.kinds, val) } }
+        2 => Op::Has(k, h),
+        3 => Op::Ins(k, h, nv(val)),
+        4 => Op::Rem(k, h),
+        5 => Op::Get(k, h),
+        6 => { let (derefs, write) = gen_dw(rng, val, null); Op::GetMut { k, h, derefs, write } }
+        7 => { let v = nv(val); let (derefs, write) = gen_dw(rng, val, null); Op::Entry(k, h, EntryOp::OrInsert { v, derefs, write }) }
+        8 => Op::Entry(k, h, EntryOp::Replace(nv(val))),
+        9 => Op::Entry(k, h, EntryOp::Remove),
+        10 => { let (derefs, write) = gen_dw(rng, val, null); Op::MutOrDefault { k, h, derefs, write } }
+        11 => Op::Count(k),
+        12 => Op::Empty(k),
+        13 => Op::Mask(k),
+        14 => Op::Clear(k),
+        15 => Op::Drain(k, rng.below(4) as usize),
+        16 => Op::Slice(k),
+        17 => Op::Emit(k, rng.chance(1, 2)),
+        18 => Op::Events(k),
+        19 => Op::DelNow(h),
+        20 => Op::DelAtomic(h),
+        21 => { let n = rng.range(1, 4) as usize; let mut hs: Vec<usize> = (0..n).map(|_| pick_slot(rng, *nlog)).collect(); if n >= 2 && rng.chance(1, 3) { hs[n - 1] = hs[0]; } Op::DelBatch(hs) }
+        22 => Op::Maintain,
+        23 => Op::LazyIns(k, h, nv(val)),
+        24 => { let n = rng.range(1, 3) as usize; Op::LazyInsAll(k, (0..n).map(|_| { *val += 1; (pick_slot(rng, *nlog), if null { 0 } else { *val }) }).collect()) }
+        25 => Op::LazyRem(k, h),
+        26 => { *nlog += 1; Op::LazyCreate(gen_comps(rng, &p.kinds, val)) }
+        27 => {
+            let n = rng.range(1, 4) as usize;
+            let mut script = Vec::new();
+            for _ in 0..n {
+                let mut o = gen_simple_store_op(rng, p, nlog, val, depth + 1);
+                if matches!(o, Op::Maintain | Op::DropWorld) { o = Op::EJoin; }
+                script.push(o);
+            }
+            Op::LazyExec(script)
+        }
+        28 => {
+            let n = rng.range(1, 6) as usize;
+            let mutable = rng.chance(2, 3);
+            let acts = (0..n).map(|_| match rng.below(5) {
+                0 => RAct::Skip,
+                1 => RAct::Get,
+                2 => { let (derefs, write) = gen_dw(rng, val, null); RAct::GetMut { derefs, write } }
+                3 => RAct::GetOther(pick_slot(rng, *nlog)),
+                _ => { let (derefs, write) = gen_dw(rng, val, null); RAct::GetOtherMut { h: pick_slot(rng, *nlog), derefs, write } }
+            }).collect();
+            Op::RJoin { k, mutable, acts }
+        }
+        29 => Op::DelAll,
+        _ => { let n = rng.range(1, 3) as usize; *nlog += n; Op::CreateIter { atomic: rng.chance(1, 2), n } }
+    }
+}
+
+/// Random history over storages: registration (by random paths, sometimes late), then ops.
+pub fn gen_store_script(rng: &mut Rng, len: usize, p: &StoreProfile) -> Vec<Op> {
+    let mut ops = Vec::new();
+    let mut nlog = 0usize;
+    let mut val = 0i64;
+    let mut late: Vec<usize> = Vec::new();
+    for &k in &p.kinds {
+        if rng.chance(1, 6) { late.push(k); } else { ops.push(Op::Reg(k, rng.below(3) as u8)); }
+    }
+    if p.far_apart {
+        // occupy far-apart indices: create many, keep a few (63, 64, 4095, 4096, …), delete none
+        let n = *rng.pick(&[70usize, 70, 70, 4100]);
+        ops.push(Op::CreateIter { atomic: false, n });
+        nlog += n;
+    }
+    let mut p2 = p.clone();
+    for i in 0..len {
+        if !late.is_empty() && i == len / 3 {
+            for k in late.drain(..) { ops.push(Op::Reg(k, rng.below(3) as u8)); }
+        }
+        p2.kinds = p.kinds.iter().cloned().filter(|k| !late.contains(k)).collect();
+        if p2.kinds.is_empty() { p2.kinds = p.kinds.clone(); }
+        let mut op = gen_simple_store_op(rng, &p2, &mut nlog, &mut val, 0);
+        if p.far_apart {
+            // redirect handle slots to boundary-straddling handles most of the time
+            let b = [0usize, 62, 63, 64, 65, 4094, 4095, 4096, 4097];
+            let pick = |rng: &mut Rng| { let x = *rng.pick(&b); if x < nlog { x } else { x % nlog.max(1) } };
+            if rng.chance(3, 4) {
+                op = match op {
+                    Op::Ins(k, _, v) => Op::Ins(k, pick(rng), v),
+                    Op::Rem(k, _) => Op::Rem(k, pick(rng)),
+                    Op::Get(k, _) => Op::Get(k, pick(rng)),
+                    Op::Has(k, _) => Op::Has(k, pick(rng)),
+                    Op::DelNow(_) => Op::DelNow(pick(rng)),
+                    Op::Entry(k, _, e) => Op::Entry(k, pick(rng), e),
+                    Op::GetMut { k, derefs, write, .. } => Op::GetMut { k, h: pick(rng), derefs, write },
+                    o => o,
+                };
+            }
+        }
+        ops.push(op);
+    }
+    if p.drop_world { ops.push(Op::DropWorld); }
+    ops
+}
+
+pub fn random_profile(rng: &mut Rng, focus: &str) -> StoreProfile {
+    let all: Vec<usize> = (0..NUM_KINDS).collect();
+    let tracked: Vec<usize> = (6..NUM_KINDS).collect();
+    let nk = rng.range(1, 3) as usize;
+    let pool: &Vec<usize> = if focus == "tracked" { &tracked } else { &all };
+    let mut kinds: Vec<usize> = Vec::new();
+    while kinds.len() < nk { let k = *rng.pick(pool); if !kinds.contains(&k) { kinds.push(k); } }
+    if focus == "many" { kinds = all.clone(); }
+    StoreProfile {
+        kinds,
+        lazy: focus == "lazy" || rng.chance(1, 3),
+        rjoin: focus == "rjoin" || rng.chance(1, 4),
+        emit_toggle: focus == "tracked" && rng.chance(1, 3),
+        clear: focus != "tracked" && rng.chance(1, 2),
+        far_apart: focus == "far" || rng.chance(1, 30),
+        drop_world: focus == "ledger" || rng.chance(1, 4),
+    }
 }
 
 /// The alphabet of the bounded-exhaustive generator (slots are taken modulo the log size).
@@ -299,5 +1136,27 @@ pub fn exhaustive_alphabet() -> Vec<Op> {
         Op::DelAll,
         Op::Maintain,
         Op::CreateIter { atomic: true, n: 2 },
+    ]
+}
+
+/// Store alphabet for bounded-exhaustive storage histories on kind `k` (two entities).
+pub fn store_alphabet(k: usize) -> Vec<Op> {
+    vec![
+        Op::CreateW { atomic: false, dropped: false, comps: vec![(k, 7)] },
+        Op::CreateW { atomic: true, dropped: false, comps: vec![] },
+        Op::Ins(k, 0, 1),
+        Op::Ins(k, 1, 2),
+        Op::Rem(k, 0),
+        Op::Rem(k, 1),
+        Op::GetMut { k, h: 0, derefs: 1, write: Some(3) },
+        Op::Entry(k, 1, EntryOp::OrInsert { v: 4, derefs: 0, write: None }),
+        Op::Entry(k, 0, EntryOp::Remove),
+        Op::DelNow(0),
+        Op::DelAtomic(1),
+        Op::Maintain,
+        Op::Drain(k, 1),
+        Op::Clear(k),
+        Op::LazyIns(k, 0, 5),
+        Op::LazyRem(k, 1),
     ]
 }
